@@ -279,7 +279,9 @@ let parse_dump lines cols tok =
   if n < 4 || tok.[0] <> 'D' || tok.[1] <> '{' || tok.[n - 1] <> '}' then failwith "dump";
   match split_on_string "}{" (String.sub tok 2 (n - 3)) with
   | [aux; raw; api] ->
-    ({ rb_lines = lines; rb_cols = cols; cells = parse_raw raw; aux = parse_aux aux }, parse_api api)
+    (* one line without columns prints like no line at all: the size is known from the case *)
+    let rows f s = if s = "" then List.init (max 0 (iz lines)) (fun _ -> []) else f s in
+    ({ rb_lines = lines; rb_cols = cols; cells = rows parse_raw raw; aux = parse_aux aux }, rows parse_api api)
   | _ -> failwith "dump"
 
 (* the check applied to a dump; C13 replaces it by the display-equality variant *)
